@@ -402,9 +402,9 @@ def check_ref(case, ctx):
                 m.cur = DELETED
                 del c.user
             elif op == "read":
-                if m.cur == UNTOUCHED and m.committed == UNKNOWN:
-                    m.committed = ("known", dbv)
-                expv = (m.committed[1] if m.committed[0] == "known" else None) if m.cur == UNTOUCHED else (None if m.cur == DELETED else m.cur[1])
+                if m.cur == UNTOUCHED and (m.committed == UNKNOWN or (m.committed == ABSENT and persistent)):
+                    m.committed = ("known", dbv)  # lazy load puts the value (None for a flushed object that never had one) into __dict__
+                expv =(m.committed[1] if m.committed[0] == "known" else None) if m.cur == UNTOUCHED else (None if m.cur == DELETED else m.cur[1])
                 got = c.user
                 if got is not parents[expv]:
                     raise Violation("C36/ref/read", f"step {step}: user reads {got!r}, model parent {expv}")
@@ -412,6 +412,9 @@ def check_ref(case, ctx):
                 ch = m.changed()
                 if m.committed == ABSENT:
                     ch = None  # never-set reference of a flushed object: whether NULL is rewritten is not part of the contract
+                hexp = m.expected(is_object=True)
+                if ch is False and (hexp[0] or hexp[2]):
+                    ch = None  # `del` of a NULL reference is reported as ([None], (), ()): a NULL->NULL rewrite is tolerated
                 cap.clear()
                 sess.flush()
                 stmts = [s_ for s_ in cap.rows if not s_[0].startswith("SELECT")]
@@ -431,7 +434,9 @@ def check_ref(case, ctx):
                 if m.cur not in (UNTOUCHED, DELETED):
                     m.committed = ("known", m.cur[1])
                 elif m.cur == DELETED:
-                    m.committed = UNKNOWN
+                    # persistent: the flush wrote NULL into the (loaded) foreign key, a lazy load answers None;
+                    # pending: neither the reference nor the foreign key attribute ever got a value
+                    m.committed = UNKNOWN if persistent else ABSENT
                 m.cur = UNTOUCHED
                 persistent = True
                 if op == "commit":
